@@ -10,9 +10,10 @@ What is proved here, for ALL inputs of the models:
 * value path: a nest entered at `Tokens.Depth() = start` is accepted iff `start + levels ≤ max+1`,
   refused with errMaxDepth otherwise — also when the innermost container is empty;
 * both paths agree on the limit, also when a value is split between tokens and a raw value;
-* marshal traversal of a heap graph ends (value or error) whenever no cycle consists of
-  pointer/interface hops only; on the one-node graph `p = &p` it does NOT end (finding D2):
-  the full statement `cycle_bounded_full` is false of the model of the code as implemented.
+* marshal traversal of a heap graph ends (value or error) on EVERY finite graph (`cycle_bounded`);
+  without the `pointsToPointerLike` clause of makePointerArshaler it does not end on `p = &p`
+  (finding D2, fixed in repo commit 407e50b); with the `AtMaxDepth` guard no container is written
+  at depth max+1, without it an empty slice/map is (finding D5, fixed in c2b1a73).
 -/
 import JsonV.Lemmas.DepthL
 import JsonV.Lemmas.DepthValueL
@@ -197,54 +198,63 @@ example : ∃ m, pushes 3 [true, false] Machine.init = .ok m :=
 
 /-! ### Marshal traversal of Go values -/
 
-/-- `cycle_bounded_partial`: on every finite heap graph in which no cycle consists of pointer and
-interface hops only (certified by a rank that decreases along such hops), the traversal as implemented
-ends with a value or an error — from any legal depth, whatever the visited set. -/
-theorem cycle_bounded_partial (g : Heap) (max after : Nat) (rank : Nat → Nat) (R : Nat)
-    (hr : Ranked g rank R) (depth : Nat) (seen : List Nat) (n : Nat) (hd : depth ≤ max + 1) :
-    ∃ fuel, ∀ fuel', fuel ≤ fuel' → marshal g max after fuel' depth seen n ≠ .outOfFuel :=
-  ⟨(max + 1 - depth) * (R + 1) + rank n + 1, fun fuel' hf =>
-    marshal_terminates g max after rank R hr fuel' depth seen n hd (by omega)⟩
+/-- the traversal of the current code: both clauses present, constants of the source -/
+def srcCfg : Cfg := { max := JsonV.Gen.jsontext.c_maxNestingDepth, after := JsonV.Gen.json.c_startDetectingCyclesAfter }
 
-/-- the hypothesis is met by a slice that contains itself (`s[0] = s`): the hop back goes through an
-interface (rank 1 → 0), the slice deepens the token depth -/
-example : Ranked selfSlice (fun n => if n = 1 then 1 else 0) 1 := by
-  constructor
-  · intro n; show (if n = 1 then 1 else 0) ≤ 1; split <;> omega
-  · intro n nd hg hk c hc
-    match n, hg with
-    | 0, hg => simp [selfSlice] at hg; subst hg; simp [Kind.deepens] at hk
-    | 1, hg => simp [selfSlice] at hg; subst hg; simp at hc; subst hc; simp
-    | n + 2, hg => simp [selfSlice] at hg
+/-- `cycle_bounded`: on EVERY finite heap graph, from any legal token depth and whatever the visited set,
+the traversal as implemented (with the `pointsToPointerLike` clause of makePointerArshaler) ends with a
+value or an error.  No hypothesis on the graph: dangling edges and interface-in-interface are answered
+`dangling`, every cycle is cut by the visited set or by the depth limit. -/
+theorem cycle_bounded (cfg : Cfg) (ht : cfg.trackPtrLike = true) (g : Heap) (depth : Nat) (seen : List Nat)
+    (n : Nat) (hd : depth ≤ cfg.max + 1) :
+    ∃ fuel, ∀ fuel', fuel ≤ fuel' → marshal cfg g fuel' depth seen n ≠ .outOfFuel :=
+  ⟨(cfg.max + 1 - depth) * (3 * g.length + 3) + 3 * unseen g seen + flag g n + 1, fun fuel' hf =>
+    marshal_terminates cfg g ht fuel' depth seen n hd (by omega)⟩
 
-/-- D5 in the model, at max = 2: three nested slices are written when the innermost one is empty (the
-`[]` shortcut skips the depth test), and refused when it holds a scalar.  (Illustrations, not theorems.) -/
-example : marshal [⟨.slice, [1]⟩, ⟨.slice, [2]⟩, ⟨.slice, []⟩] 2 1000 10 1 [] 0 = .ok := by decide
-example : marshal [⟨.slice, [1]⟩, ⟨.slice, [2]⟩, ⟨.slice, [3]⟩, ⟨.scalar, []⟩] 2 1000 10 1 [] 0 = .maxDepth := by decide
-/-- …whereas the value path refuses the text `[[[]]]` at max = 2 (`nestEmpty_iff`). -/
+/-- for the constants of the source, from the top level: an explicit bound on the recursion
+(a few times `maxNestingDepth · |g|` calls deep) -/
+theorem cycle_bounded_src (g : Heap) (n : Nat) :
+    marshal srcCfg g (10001 * (3 * g.length + 3)) 1 [] n ≠ .outOfFuel := by
+  apply marshal_terminates srcCfg g rfl _ 1 [] n (by simp [srcCfg])
+  have hu := unseen_le g []
+  have hf := flag_le g n
+  have : srcCfg.max + 1 - 1 = 10000 := by simp [srcCfg, maxNestingDepth_eq]
+  rw [this]
+  omega
+
+/-- The pointer-only cycles are now reported as cycles (`type P *P; p = &p`, `var x any; x = &x`). -/
+theorem pointer_cycle_reported (cfg : Cfg) (ht : cfg.trackPtrLike = true) (fuel depth : Nat) :
+    marshal cfg selfPtr (fuel + 2) depth [] 0 = .cycle ∧
+    marshal cfg selfIface (fuel + 4) depth [] 0 = .cycle :=
+  ⟨selfPtr_cycle cfg ht fuel depth, selfIface_cycle cfg ht fuel depth⟩
+
+/-- The clause is necessary: WITHOUT it (the traversal before repo commit 407e50b, finding D2) no amount
+of fuel ends the traversal of `p = &p` or of `x = &x` — the visited set is then consulted only when
+`Tokens.Depth() > startDetectingCyclesAfter`, and a pointer hop does not change the token depth. -/
+theorem pointer_cycle_unbounded_without_clause (cfg : Cfg) (ht : cfg.trackPtrLike = false) (h : 1 ≤ cfg.after) :
+    ∀ fuel, marshal cfg selfPtr fuel 1 [] 0 = .outOfFuel ∧ marshal cfg selfIface fuel 1 [] 0 = .outOfFuel :=
+  fun fuel => ⟨selfPtr_diverges_old cfg ht fuel 1 [] h, (selfIface_diverges_old cfg ht fuel 1 [] h).1⟩
+
+example : (1 : Nat) ≤ ({ srcCfg with trackPtrLike := false } : Cfg).after := by decide
+
+/-- With the `AtMaxDepth` guard of the `[]`/`{}` shortcut (repo commit c2b1a73), no container is written
+at `Depth() = max+1`, empty or not: the answer is errMaxDepth (or the cycle error). -/
+theorem container_at_limit (cfg : Cfg) (hg : cfg.guardEmpty = true) (g : Heap) (fuel : Nat) (seen : List Nat)
+    (n : Nat) (nd : Node) (hn : g[n]? = some nd) (hk : nd.kind.deepens = true) :
+    marshal cfg g (fuel + 1) (cfg.max + 1) seen n = .maxDepth ∨ marshal cfg g (fuel + 1) (cfg.max + 1) seen n = .cycle := by
+  rw [container_at_limit_refused cfg g hg fuel seen n nd hn hk]
+  split <;> simp
+
+/-- The guard is necessary: WITHOUT it (finding D5/D11) an empty slice or map at `Depth() = max+1` is written. -/
+theorem empty_container_accepted_without_guard (cfg : Cfg) (hg : cfg.guardEmpty = false) (g : Heap) (fuel : Nat)
+    (n : Nat) (nd : Node) (hn : g[n]? = some nd) (hk : nd.kind = .slice ∨ nd.kind = .map) (he : nd.succ = []) :
+    marshal cfg g (fuel + 1) (cfg.max + 1) [] n = .ok :=
+  old_shortcut_accepts cfg g hg fuel [] n nd hn hk he (by simp)
+
+/-- at max = 2: three nested slices with an empty innermost one are refused now, like the text `[[[]]]`
+on the value path; the old shortcut wrote them.  (Illustrations, not theorems.) -/
+example : marshal { max := 2, after := 1000 } [⟨.slice, [1]⟩, ⟨.slice, [2]⟩, ⟨.slice, []⟩] 10 1 [] 0 = .maxDepth := by decide
+example : marshal { max := 2, after := 1000, guardEmpty := false } [⟨.slice, [1]⟩, ⟨.slice, [2]⟩, ⟨.slice, []⟩] 10 1 [] 0 = .ok := by decide
 example : nestDepthOk 2 1 (nestEmpty [false, false] false) = false := by decide
-
-/-- The full statement: the traversal ends on every finite heap graph. -/
-def cycle_bounded_full (max after : Nat) : Prop :=
-  ∀ (g : Heap) (n : Nat), ∃ fuel, marshal g max after fuel 1 [] n ≠ .outOfFuel
-
-/-- `type P *P; p = &p`: no amount of fuel ends the traversal (the visited set is consulted only when
-`Tokens.Depth() > startDetectingCyclesAfter`, and a pointer hop does not change the token depth). -/
-theorem pointer_cycle_unbounded (max after : Nat) (h : 1 ≤ after) :
-    ∀ fuel, marshal selfPtr max after fuel 1 [] 0 = .outOfFuel :=
-  fun fuel => selfPtr_diverges max after fuel 1 [] h
-
-/-- `var x any; x = &x` likewise -/
-theorem iface_cycle_unbounded (max after : Nat) (h : 1 ≤ after) :
-    ∀ fuel, marshal selfIface max after fuel 1 [] 0 = .outOfFuel :=
-  fun fuel => (selfIface_diverges max after fuel 1 [] h).1
-
-/-- Hence the full statement is FALSE of the traversal as implemented, for the constants of the source
-(finding D2; the harness confirms it on the real code: fatal stack overflow). -/
-theorem cycle_bounded_full_false :
-    ¬ cycle_bounded_full JsonV.Gen.jsontext.c_maxNestingDepth JsonV.Gen.json.c_startDetectingCyclesAfter := by
-  intro hfull
-  obtain ⟨fuel, hf⟩ := hfull selfPtr 0
-  exact hf (pointer_cycle_unbounded _ _ (by decide) fuel)
 
 end JsonV.Props.C20
